@@ -68,7 +68,7 @@ func harness_C11_remote() {
 	c05.enMTASTS, c05.enDANE, c05.enDNSSEC, c05.enLocal = false, false, false, true
 	c05.minTLS, c05.minMX = module.TLSNone, module.MXNone
 	c05.allowOverride = true
-	c05.noObligation, c05.hopFaults = true, true
+	c05.noObligation, c05.hopFaults, c05.plain = true, true, true
 	c05World(nmx, ndom)
 	rt := c05Target(true)
 	c11r.held = map[string]int{}
